@@ -258,7 +258,13 @@ impl<'a, 'b: 'a, R: Read> RowParser<'a, 'b, R> {
             }
 
             let val = self.parser.parse_value()?;
-            dict.insert(cols[col_num].name.clone(), val);
+            let Some(col) = cols.get(col_num) else {
+                return self
+                    .parser
+                    .lexer
+                    .make_generic_err("Zinc Grid parser: Row has more cells than columns.");
+            };
+            dict.insert(col.name.clone(), val);
 
             self.parser.lexer.read()?;
         }
